@@ -87,7 +87,7 @@ impl Service<String> for PanicsOnFirstCall {
     }
 }
 #[tokio::test]
-async fn c11_leader_sync_panic_leaves_key_registered() {
+async fn c11_leader_sync_panic_no_longer_leaves_key_registered() {
     use tower_resilience_coalesce::CoalesceLayer;
     let svc = CoalesceLayer::new(|r: &String| r.clone()).layer(PanicsOnFirstCall { first: Arc::new(AtomicBool::new(true)) });
     let mut a = svc.clone();
@@ -95,20 +95,26 @@ async fn c11_leader_sync_panic_leaves_key_registered() {
     assert!(r.is_err(), "first call must panic");
     let mut b = svc.clone();
     let second = tokio::time::timeout(Duration::from_millis(300), b.ready().await.unwrap().call("k".to_string())).await;
-    assert!(second.is_err(), "finding no longer reproduces: the second request for the same key completed: {second:?}");
+    // FIXED by the `fix:` commit "coalesce leader un-registers its key when the inner service panics in call()":
+    // before the fix this timed out (the key stayed registered); now the second request starts a fresh call.
+    assert!(matches!(second, Ok(Ok(_))), "regression: the second request for the same key did not complete: {second:?}");
 }
 
 /// C20: retries and reconnect retries call an instance that has not been polled ready since its previous call.
+#[derive(Debug, Clone)]
+struct Refused;
+impl std::fmt::Display for Refused { fn fmt(&self, f: &mut std::fmt::Formatter<'_>) -> std::fmt::Result { write!(f, "connection refused") } }
+impl std::error::Error for Refused {}
 #[derive(Clone)]
 struct StrictReadiness { ready: bool, violations: Arc<AtomicUsize>, fails_left: Arc<AtomicUsize> }
 impl Service<String> for StrictReadiness {
-    type Response = String; type Error = std::io::Error; type Future = BoxFut<String, std::io::Error>;
-    fn poll_ready(&mut self, _: &mut Context<'_>) -> Poll<Result<(), std::io::Error>> { self.ready = true; Poll::Ready(Ok(())) }
+    type Response = String; type Error = Refused; type Future = BoxFut<String, Refused>;
+    fn poll_ready(&mut self, _: &mut Context<'_>) -> Poll<Result<(), Refused>> { self.ready = true; Poll::Ready(Ok(())) }
     fn call(&mut self, req: String) -> Self::Future {
         if !self.ready { self.violations.fetch_add(1, Ordering::SeqCst); }
         self.ready = false;
         let fail = self.fails_left.fetch_update(Ordering::SeqCst, Ordering::SeqCst, |v| v.checked_sub(1)).is_ok();
-        Box::pin(async move { if fail { Err(std::io::Error::new(std::io::ErrorKind::ConnectionRefused, "refused")) } else { Ok(req) } })
+        Box::pin(async move { if fail { Err(Refused) } else { Ok(req) } })
     }
 }
 #[tokio::test]
@@ -116,7 +122,7 @@ async fn c20_retry_second_attempt_not_ready() {
     use tower_resilience_retry::RetryLayer;
     let v = Arc::new(AtomicUsize::new(0));
     let inner = StrictReadiness { ready: false, violations: Arc::clone(&v), fails_left: Arc::new(AtomicUsize::new(1)) };
-    let layer = RetryLayer::<String, std::io::Error>::builder().max_attempts(3).fixed_backoff(Duration::from_millis(1)).build();
+    let layer = RetryLayer::<String, Refused>::builder().max_attempts(3).fixed_backoff(Duration::from_millis(1)).build();
     let mut svc = layer.layer(inner);
     let out = svc.ready().await.unwrap().call("x".to_string()).await;
     assert!(out.is_ok());
